@@ -48,7 +48,6 @@ type mon struct {
 	finds    map[string]*finding
 	order    []string
 	values   int
-	inShrink bool
 }
 
 func (m *mon) get(sig, what string) *finding {
